@@ -330,6 +330,11 @@ theorem detect_header (k : Kind) (hk : k ≠ .full) (s : Bytes) :
   | intermediate => simp [detect, header, Cfg.spec]
   | padded => simp [detect, header, Cfg.spec]
 
+theorem readHeader_header (cfg : Cfg) (k : Kind) (s : Bytes) :
+    readHeader cfg k (header cfg k ++ s) = .ok s := by
+  unfold readHeader
+  simp
+
 theorem leN4 (n : Nat) : leN 4 n = [UInt8.ofNat (n % 256), UInt8.ofNat (n / 256 % 256),
     UInt8.ofNat (n / 256 / 256 % 256), UInt8.ofNat (n / 256 / 256 / 256 % 256)] := by
   simp [leN]
